@@ -23,6 +23,11 @@ from tqv import gen
 from tqv.core import Inconclusive, SubCheck, Violation, canon, req
 from tqv.machine import HistorySpec
 
+# caller-owned arrays handed to the library must come back unchanged (see tqv/purity.py)
+from tqv.purity import install as _install_purity  # noqa: E402
+
+_install_purity('toqito.measurements', 'toqito.measurement_ops', 'toqito.measurement_props')
+
 PROPERTY = "C19"
 RULE = (
     "Validity sub-checks: Hypothesis draws the generator arguments (dimension 1..6 as int or list form, real/complex "
